@@ -307,6 +307,42 @@ def p_gcp_pickle():
     return not bad, "; ".join(bad) or "clones equal, same hash and token"
 
 
+def p_cross_process(seed_a=11, seed_b=12):
+    """a value pickled in one interpreter (plain, or after it was hashed / tokenized / queried) and unpickled in another
+    one (same and different PYTHONHASHSEED, the latter after perturbing the CRS caches) is == the same value built
+    there, with the same hash, set/dict membership, dask token, and - for CRSs - str / EPSG code / units / WKT"""
+    from vlib import c19xproc
+    bad = c19xproc.run(seed_a, seed_b)
+    if not bad:
+        return True, [], "all classes consistent across interpreters"
+    b = bad[0]
+    return False, bad, (f"{b['name']} ({'hashed/tokenized/queried' if b['mode'] == 'touched' else 'untouched'} before pickling; consumer: "
+                   f"{b['consumer']}): {b['what']}; {len(bad)} failures in classes {sorted({x['class'] for x in bad})}")
+
+
+def p_crs_pairs(specs):
+    """for the CRSs of `specs` in the current process state: to_epsg agrees with pyproj, and the transformer of every
+    ordered pair and axis order agrees with a freshly built pyproj transformer"""
+    from odc.geo.crs import CRS
+    from pyproj import Transformer
+    from pyproj.crs import CRS as P
+    cc = [(s, CRS(s), P.from_user_input(s)) for s in specs]
+    for s, c, p in cc:
+        if c.to_epsg() != p.to_epsg():
+            return False, f"CRS({s!r}).to_epsg() = {c.to_epsg()}, pyproj says {p.to_epsg()}"
+        if str(c).upper() != p.srs.upper() and str(c) != p.srs:
+            return False, f"str(CRS({s!r})) = {str(c)[:50]!r}, the pyproj srs is {p.srs[:50]!r}"
+    for (sa, a, pa), (sb, b, pb) in itertools.product(cc, cc):
+        if sa == sb:
+            continue
+        for xy in (True, False):
+            got = tuple(a.transformer_to_crs(b, always_xy=xy)(3.5, 2.25))
+            want = tuple(Transformer.from_crs(pa, pb, always_xy=xy).transform(3.5, 2.25))
+            if repr(got) != repr(want):
+                return False, f"{sa} -> {sb} always_xy={xy}: (3.5, 2.25) maps to {got}, a fresh pyproj transformer gives {want}"
+    return True, "epsg codes and all pair transformers agree with pyproj"
+
+
 def p_array_tokens():
     """unequal GCP geoboxes / tilings whose arrays have the same numpy repr must not share a dask token"""
     import math
@@ -366,8 +402,10 @@ def pair_clause(a, b, clause):
     raise ValueError(clause)
 
 
-PREDICATES = {"array-tokens": p_array_tokens, "many-crs": p_many_crs, "transformers-all": p_transformers_all, "crs-relation": p_crs_relation, "history": p_history, "transformer": p_transformer, "tiles-token": p_tiles_token, "gcp-pickle": p_gcp_pickle,
+PREDICATES = {"cross-process": p_cross_process, "crs-pairs": p_crs_pairs, "array-tokens": p_array_tokens, "many-crs": p_many_crs, "transformers-all": p_transformers_all, "crs-relation": p_crs_relation, "history": p_history, "transformer": p_transformer, "tiles-token": p_tiles_token, "gcp-pickle": p_gcp_pickle,
               "lossless": p_lossless, "family-pair": family_pair}
+from vlib import crshist  # noqa: E402
+PREDICATES["after_history"] = crshist.after_history(PREDICATES)
 
 
 # ---------------------------------------------------------------------------
@@ -662,6 +700,30 @@ def run_corpus(out):
                           {"predicate": name, "args": rp.get("args", []), "observed": detail})
 
 
+def part_x(out, tier):
+    """cross-process round trips and CRS pairs after process-history perturbations"""
+    found = out.__dict__.setdefault("_c19_found", set())
+    for sa, sb in (((11, 12),) if tier == "quick" else ((11, 12), (0, 1), (5, 5))):
+        r = p_cross_process(sa, sb)
+        out.count("predicate:cross-process")
+        out.case(("cross-process", sa, sb), True)
+        if not r[0]:
+            for cls in sorted({b["class"] + ":" + b["clause"] for b in r[1]})[:4]:
+                key = f"c19:xproc:{cls}"
+                if key not in found:
+                    found.add(key)
+                    out.violation(key, r[2], {"predicate": "cross-process", "args": [sa, sb], "observed": r[2]})
+    specs = ["epsg:4326", "epsg:3857", "epsg:32633", "epsg:3577", "EPSG:6933"]
+    for hist in (["authority-order-first"], ["queries-first", "churn"], ["churn", "authority-order-first", "queries-first"]):
+        ok, detail = PREDICATES["after_history"](hist, specs, "crs-pairs", [specs])
+        out.count("predicate:crs-pairs-after-history")
+        out.case(("crs-pairs", tuple(hist)), True)
+        if not ok and "c19:transformer-pair:after-history" not in found:
+            found.add("c19:transformer-pair:after-history")
+            out.violation("c19:transformer-pair:after-history", f"after {hist}: {detail}",
+                          {"predicate": "after_history", "args": [hist, specs, "crs-pairs", [specs]], "observed": detail})
+
+
 def run(out, tier, scratch):
     from vlib import c19crs
     out.rule = ("(a) histories: every ordered pair of 9 closed spellings of one EPSG code (+ cross-code pairs) followed by ==, "
@@ -685,8 +747,21 @@ def run(out, tier, scratch):
     bad = w.check_contracts()
     out.oblige("oracle-contract:Model.CrsCache.contracts hold for CPython str / pyproj on the texts of the run", "oracle-contract",
                not bad, "; ".join(bad[:6]))
-    na = part_a(out, tier, scratch, w)
-    nb = part_b(out, tier, scratch, w)
+    # each part runs even if another one breaks (a changed cache layout must not hide the searches of the other parts)
+    import traceback
+    na = nb = 0
+    for label, part in (("cross-process / after-history search", lambda: part_x(out, tier)),
+                        ("part (a)", lambda: part_a(out, tier, scratch, w)), ("part (b)", lambda: part_b(out, tier, scratch, w))):
+        try:
+            r = part()
+            if label == "part (a)":
+                na = r
+            elif label == "part (b)":
+                nb = r
+        except core.ModelEvalError as e:
+            out.oblige(f"model-evaluation:{label}", "correspondence", False, e.log)
+        except Exception:  # noqa: BLE001
+            out.oblige(f"harness:{label}", "correspondence", False, traceback.format_exc())
     out.notes.append(f"{na} lock-step histories, {nb} value cases evaluated by vm_compute; {len(w.texts)} interned texts, {len(w.srs)} distinct srs")
 
 
